@@ -432,7 +432,7 @@ static void handler_done(World &w) {
     if (n.is_listener) {
         int me = w.cur_node_id(), open_now = 0;
         for (auto &e : w.fds) if (e.kind != FdEnt::FREE && e.node == me) open_now++;
-        if (n.fds_first < 0) { n.fds_first = open_now; n.heap_first = n.heap_live; }
+        if (n.fds_first < 0) { n.fds_first = open_now; n.heap_first = n.heap_live; n.heap_first_bytes = n.heap_live_bytes; }
         else if (open_now > n.fds_first + 8 && w.hooks.on_fd_growth) w.hooks.on_fd_growth(w, me, open_now, n.fds_first);
         uint64_t sp = (uint64_t)(uintptr_t)__builtin_frame_address(0);
         if (!n.sp_first) n.sp_first = n.sp_low = sp;
@@ -588,6 +588,16 @@ unsigned __wrap_alarm(unsigned sec) {
     return 0;
 }
 
+char *__real_setlocale(int, const char *);
+char *__wrap_setlocale(int cat, const char *loc) {
+    if (!in_sim() || !loc || *loc) return __real_setlocale(cat, loc);
+    // setlocale(cat, "") takes the locale from the environment, which libc reads itself: in the runs whose environment is populated
+    // it names a UTF-8 locale half of the time
+    g_world->count("ev.setlocale_from_environment");
+    if (g_world->env_on && (g_world->env_seed & 0x100)) { g_world->count("cfg.utf8_locale"); return __real_setlocale(cat, "C.UTF-8"); }
+    return __real_setlocale(cat, "C");
+}
+
 int __real_isatty(int);
 int __wrap_isatty(int fd) {
     if (!in_sim()) return __real_isatty(fd);
@@ -705,6 +715,17 @@ int __wrap_ioctl(int fd, unsigned long req, ...) {
         r->ifr_ifindex = idx;
         return 0;
     }
+    if (req == TIOCGWINSZ) {
+        // the size of the terminal, if the descriptor is one: another input a program reads from its surroundings
+        if (fd < 0 || fd > 2 || !w.tty) { errno = ENOTTY; return -1; }
+        struct winsize *ws = (struct winsize *)arg;
+        static const unsigned short cols[] = {80, 132, 213, 40, 500, 1};
+        memset(ws, 0, sizeof *ws);
+        ws->ws_col = cols[w.env_seed % 6];
+        ws->ws_row = (unsigned short)(24 + w.env_seed / 6 % 40);
+        w.count("ev.tiocgwinsz");
+        return 0;
+    }
     errno = EINVAL;
     return -1;
 }
@@ -783,6 +804,8 @@ int __wrap_setsockopt(int fd, int level, int optname, const void *optval, sockle
         e->can_filter_set = true;
     } else if (level == SOL_CAN_RAW && optname == CAN_RAW_ERR_FILTER && optlen >= sizeof(can_err_mask_t)) {
         e->can_err_mask = *(const can_err_mask_t *)optval;
+    } else if (level == SOL_SOCKET && optname == SO_BINDTODEVICE) {
+        e->bind_dev.assign((const char *)optval, strnlen((const char *)optval, optlen));
     } else if (level == SOL_SOCKET && optname == SO_RCVBUF && optlen >= sizeof(int)) {
         int v = *(const int *)optval;
         e->rcvbuf_bytes = std::max<size_t>(2304, 2 * (size_t)std::max(0, std::min(v, 212992)));
@@ -815,6 +838,8 @@ ssize_t __wrap_recv(int fd, void *buf, size_t len, int flags) {
     w.sched_point();
     FdEnt *e = w.fd(fd);
     if (!e || (e->kind != FdEnt::PACKET && e->kind != FdEnt::UDP)) { errno = EBADF; return -1; }
+    // an interface that went down and came back leaves ENETDOWN on the packet sockets bound to it: the next receive reports it, once
+    if (e->pending_err) { errno = e->pending_err; e->pending_err = 0; w.count("ev.recv_socket_error"); w.log("recv-error", (uint64_t)fd, (uint64_t)errno); return -1; }
     uint64_t rdl = e->rcvtimeo_ns ? w.now + e->rcvtimeo_ns : 0;
     // readiness is a hint: a datagram whose checksum turns out to be wrong is discarded when it is copied, and a non-blocking receive
     // then finds nothing (select(2), BUGS). Cooperative fault point: only programs that ask for MSG_DONTWAIT can see it.
@@ -853,6 +878,10 @@ ssize_t __wrap_sendto(int fd, const void *buf, size_t len, int flags, const stru
     w.sched_point();
     FdEnt *e = w.fd(fd);
     if (!e || (e->kind != FdEnt::PACKET && e->kind != FdEnt::UDP)) { errno = EBADF; return -1; }
+    // a socket bound to a device routes through that device only: IP traffic has no route through a CAN interface
+    if (e->kind == FdEnt::UDP && !e->bind_dev.empty() && e->bind_dev != "eth0" && e->bind_dev != "eth-backbone-01" && e->bind_dev != "lo") {
+        w.count("ev.sendto_enetunreach"); w.log("sendto-enetunreach", (uint64_t)fd); errno = ENETUNREACH; return -1;
+    }
     if (e->pending_err) { errno = e->pending_err; e->pending_err = 0; w.count("ev.sendto_econnrefused"); w.log("sendto-econnrefused", (uint64_t)fd); return -1; }
     // a non-blocking send may find the transmit queue full (cooperative fault point: only programs that ask for MSG_DONTWAIT see it)
     if ((flags & MSG_DONTWAIT) && w.rng_net.chance(0.1)) { w.count("fault.sendto_eagain"); w.log("sendto-eagain", (uint64_t)fd); errno = EAGAIN; return -1; }
@@ -1088,6 +1117,8 @@ int __wrap_poll(struct pollfd *pfds, nfds_t n, int timeout) {
             pfds[i].revents = 0;
             if (pfds[i].fd < 0) continue;
             if (!w.fd(pfds[i].fd)) { pfds[i].revents = POLLNVAL; ready++; continue; }
+            // a pending socket error is reported whatever was asked for, and makes the socket readable (the read returns the error)
+            if (w.fd(pfds[i].fd)->pending_err && (w.fd(pfds[i].fd)->kind == FdEnt::PACKET || w.fd(pfds[i].fd)->kind == FdEnt::UDP)) { pfds[i].revents |= POLLERR | (pfds[i].events & POLLIN); ready++; continue; }
             if ((pfds[i].events & POLLIN) && w.fd_readable(pfds[i].fd)) { pfds[i].revents |= POLLIN; ready++; }
         }
         if (ready) { w.log("poll", (uint64_t)ready); return ready; }
